@@ -47,7 +47,7 @@ func E1Tables() *an.Tables {
 			// Notifier
 			g("Notifier", "subscribers", "mutex"), c("Notifier", "mutex", an.ClsSync),
 			// ChanCaster
-			c("ChanCaster", "C", an.ClsConfig), c("ChanCaster", "mutex", an.ClsSync), c("ChanCaster", "state", an.ClsAtomic),
+			c("ChanCaster", "C", an.ClsConfig), c("ChanCaster", "mutex", an.ClsSync), c("ChanCaster", "state", an.ClsAtomic), c("ChanCaster", "broken", an.ClsAtomic),
 			// ChanPubSub
 			g("ChanPubSub", "pongN", "pongC", "L"),
 			c("ChanPubSub", "ping", an.ClsSync), c("ChanPubSub", "pongC", an.ClsInitOnce), c("ChanPubSub", "broken", an.ClsInitOnce),
@@ -126,6 +126,7 @@ func E1Tables() *an.Tables {
 			{ID: "Channel.Get closed-check->take", Func: "(*Channel).Get$call1", From: "read:Channel.ctx", To: "write:Channel.buffer", Lock: "Channel.mutex", Why: "nothing is taken from the source once closed"},
 			{ID: "Channel.Get closed-check->replay", Func: "(*Channel).Get$call1", From: "read:Channel.ctx", To: "write:Channel.rollback", Lock: "Channel.mutex", Why: "state is not modified once closed"},
 			{ID: "Channel.Commit closed-check->drop", Func: "(*Channel).Commit", From: "read:Channel.ctx", To: "write:Channel.buffer", Lock: "Channel.mutex", Why: "Commit fails after close without changing state"},
+			{ID: "Channel.Rollback pending->mark", Func: "(*Channel).Rollback", From: "read:Channel.buffer", To: "write:Channel.rollback", Lock: "Channel.mutex", Why: "the number of delivered entries is marked for replay in the hold in which it was counted"},
 			{ID: "Channel.Commit pending->drop", Func: "(*Channel).Commit", From: "read:Channel.rollback", To: "write:Channel.buffer", Lock: "Channel.mutex", Why: "exactly the delivered entries are dropped"},
 			// Workers (C14)
 			{ID: "Workers.count read-modify-write", From: "read:Workers.count", To: "write:Workers.count", Lock: "Workers.mutex", Why: "worker accounting is atomic"},
@@ -156,7 +157,7 @@ func E1Tables() *an.Tables {
 			{ID: "Channel.Close cancels inside the hold", Func: "(*Channel).Close$Do1", Event: "call:field:Channel.cancel", Lock: "Channel.mutex", Write: true, Why: "a Get that holds the mutex sees the cancelled context before taking from the source"},
 			{ID: "ChanPubSub.Send delivers under sendingMu", Func: "(*ChanPubSub).Send", Event: "call:(*ChanCaster).Send", Lock: "ChanPubSub.sendingMu", Write: true, Why: "no subscription during delivery"},
 			{ID: "ChanPubSub.Send delivers under sendMu", Func: "(*ChanPubSub).Send", Event: "call:(*ChanCaster).Send", Lock: "ChanPubSub.sendMu", Write: true, Why: "sends are serialised"},
-			{ID: "ChanPubSub positive Add under sendingMu", Func: "(*ChanPubSub).Add", Event: "call:(*ChanPubSub).addSubscribers", Lock: "ChanPubSub.sendingMu", Param: "delta", SignMask: 4, Why: "subscribing is excluded while a Send counts and delivers"},
+			{ID: "ChanPubSub positive Add under sendingMu", Func: "(*ChanPubSub).Add", Event: "atomicwrite:ChanPubSub.subscribers", Inlined: true, Lock: "ChanPubSub.sendingMu", Param: "delta", SignMask: 4, Why: "subscribing is excluded while a Send counts and delivers"},
 			{ID: "ChanCaster positive Add under read lock", Func: "(*ChanCaster).Add", Event: "call:(*sync/atomic.Uint64).Add", Lock: "ChanCaster.mutex", Param: "delta", SignMask: 4, Why: "a registration cannot overlap a Send"},
 			// Buffer.Diff is one atomic snapshot of the consumer's position and the buffer (C02, C03)
 			{ID: "Diff reads the buffer length inside the consumer's hold", Func: "(*Buffer).Diff", Event: "read:Buffer.buffer", Lock: "consumer.mutex", Inlined: true, Why: "a Get of that consumer between the two reads makes Diff disagree with puts - position"},
